@@ -63,9 +63,31 @@ fn line_changes(patched_file: &PatchedFile) -> Vec<LineChange> {
                 clear_or_fold_deleted_lines(&prev_line, &mut deleted_lines, &mut line_changes);
             }
             prev_line = Some(line);
+            #[cfg(feature = "verif")]
+            crate::verif_trace::emit(
+                "dl",
+                serde_json::json!({"file": patched_file.target_file, "k": line.line_type,
+                    "src": line.source_line_no, "tgt": line.target_line_no,
+                    "q": deleted_lines.len(), "n": line_changes.len()}),
+            );
         }
         clear_or_fold_deleted_lines(&prev_line, &mut deleted_lines, &mut line_changes);
+        #[cfg(feature = "verif")]
+        crate::verif_trace::emit(
+            "hunk_end",
+            serde_json::json!({"file": patched_file.target_file, "q": deleted_lines.len(),
+                "n": line_changes.len()}),
+        );
     }
+    #[cfg(feature = "verif")]
+    crate::verif_trace::emit(
+        "changes",
+        serde_json::json!({"file": patched_file.target_file,
+            "changes": line_changes.iter().map(|c| serde_json::json!({"line": c.line,
+                "whole": c.ranges.is_none(),
+                "ranges": c.ranges.as_ref().map(|r| r.iter().map(|x| [x.start, x.end]).collect::<Vec<_>>())
+                    .unwrap_or_default()})).collect::<Vec<_>>()}),
+    );
     line_changes
 }
 
